@@ -1266,6 +1266,18 @@ func (en *Engine) havocStoreTarget(st *State, fr *Frame, s *ssa.Store) {
 				st.heap[hk] = cell{c.addr, mkUnknown("loop-carried "+lvalKey(c.addr), c.val.Type(), st.nonce)}
 			}
 		}
+		// the field of an object that exists before the loop and has not been written yet: an earlier iteration may
+		// have written it, so it is not the zero / pre-loop value either
+		if base, ok := fr.env[a.X]; ok && owner != nil {
+			if stt, isS := owner.Underlying().(*types.Struct); isS && a.Field < stt.NumFields() {
+				ft := stt.Field(a.Field).Type()
+				addr := mkFieldAddr(base, a.Field, owner, ft)
+				if _, has := st.heap[addr.Key()]; !has {
+					st.nonce++
+					st.heap[addr.Key()] = cell{addr, mkUnknown("loop-carried "+lvalKey(addr), ft, st.nonce)}
+				}
+			}
+		}
 	case *ssa.IndexAddr:
 		for hk, c := range st.heap {
 			if ia, ok := c.addr.(*IndexAddrV); ok && types.Identical(ia.Type(), a.Type()) {
